@@ -21,7 +21,9 @@ CONSTANTS Init0, MaxT, QCap,  \* initial workers, maximum workers, queue capacit
           Life,               \* the owner's operations before destruction: sequence over {"join","drain","stop"}
           MaxW,               \* bound on worker indices (model bound)
           SpawnReserves,      \* TRUE: the worker slot is reserved under the lock (repaired code)
-          DtorJoinsAfterStop  \* TRUE: the destructor joins what is left in `_threads` even after stop() (repaired code)
+          DtorJoinsAfterStop, \* TRUE: the destructor joins what is left in `_threads` even after stop() (repaired code)
+          RecheckShutdown     \* TRUE: `_shutdown` is tested under _mutex in the critical section (the code); FALSE: only on the
+                              \*       lock-free fast path next to `_accepting` (self-test)
 
 W == 1..MaxW
 NoTask == 0
@@ -55,7 +57,7 @@ SNext(s) == /\ sip' = [sip EXCEPT ![s] = @ + 1]
 
 \* ---- submitters ---------------------------------------------------------------------------------------
 SChk(s) == /\ spc[s] = "chk"
-           /\ IF accepting
+           /\ IF accepting /\ (RecheckShutdown \/ ~shutdownF)
               THEN spc' = [spc EXCEPT ![s] = "crit"] /\ UNCHANGED <<sip, refused>>
               ELSE refused' = refused \cup {Op(s).id} /\ SNext(s)
            /\ UNCHANGED <<tasks, workers, pending, created, exited, wst, wtask, shutdownF, accepting, active,
@@ -64,7 +66,7 @@ SChk(s) == /\ spc[s] = "chk"
 WantSpawn == Cardinality(workers) + (IF SpawnReserves THEN pending ELSE 0) < MaxT
 
 SCrit(s) == /\ spc[s] = "crit"
-            /\ IF shutdownF \/ Len(tasks) >= QCap
+            /\ IF (RecheckShutdown /\ shutdownF) \/ Len(tasks) >= QCap
                THEN /\ refused' = refused \cup {Op(s).id} /\ SNext(s)
                     /\ UNCHANGED <<tasks, accepted, pending, spawnFlag>>
                ELSE /\ tasks' = Append(tasks, Op(s).id)
